@@ -781,6 +781,9 @@ def arithStep (c : ACube) (j : Json) : R (Except Err ACube) := do
   | "to" => do
     let u ← field j "unit" >>= asUnitM
     pure (c.to u)
+  | "pow" => do
+    let k ← field j "exp" >>= asInt
+    pure (.ok (c.pow k))
   | _ => do
     let v ← field j "operand" >>= asOperand
     match op with
@@ -789,6 +792,7 @@ def arithStep (c : ACube) (j : Json) : R (Except Err ACube) := do
     | "rsub" => pure (c.rsub v)
     | "mul" | "rmul" => pure (c.mul v)
     | "div" => pure (c.div v)
+    | "rdiv" => pure (c.rdiv v)
     | _ => .error s!"unknown arithmetic op {op}"
 
 def opArith (j : Json) : R Json := do
